@@ -19,10 +19,10 @@ def run(rep, tier, seed, args):
         T.mk('sib_pair', [[['A'], ['B']]], {'A': 'ev', 'B': 'ev'}, [('A', 'B'), ('B', 'A', {'k': 1})], init={'A': 0}),
     ]
     for t in sib:
-        for c in S.cfgs(t, tier, caches=(True, False) if not q else (True,), K=3 if q else 4, until=2, masks='extremes' if q else 'all', lazies=(True,)):
+        for c in S.cfgs(t, tier, caches=(True, False) if not q else (True,), K=3 if q else 4, until=2, masks='extremes' if q else 'all', lazies=(True,) if q else (True, False)):
             c['rules'] = ['C01', 'C02', 'C05']
             c['rule_prefix'] = 'C11.'
-            c['no_self'] = ['A', 'B'] if q else ['B']
+            c['no_self'] = ['A', 'B']
             jobs.append(S.job('C11', t, c, budget_s=200))
     rep.rule = ('one case = one path: a group placement x simulator types x any_inputs (enumerated) with source/destination attribute, weak, '
                 'time_shifted kind (False / True / unbounded symbolic int), initial data chosen by the engine, connect() called through the public API '
